@@ -203,7 +203,7 @@ export async function check(group, records) {
 
 export function meta({ tier }) {
   return {
-    rule: `Corpus: ${tier === 'quick' ? 400 : 3000} generated modules, each 1-4 snippets drawn from ${SNIPPETS.length} JS and ${TS_SNIPPETS.length} TS snippets tagged with the features they use (on/nativeOn, spread, repeated attribute, sole identifier/call child, pattern-matching tag, defineComponent call), plus fixture inputs. (A) ${SPELLINGS.length - 1} JSON spellings of configurations (absent, {}, explicit defaults, unknown and mis-cased keys, whitespace/order, each key alone at and away from its default, everything non-default) are deserialised exactly as the plugin entry does; the parsed options and the byte output must equal those of the explicit expected option object on every module; the no-configuration case additionally runs the real plugin entry glue. ${INVALID.length} invalid pattern configurations must be rejected at read time. (B) for every module and every option whose feature the module does not use, outputs with that option off/on under ${tier === 'quick' ? 2 : 8} random settings of the other options must be byte-identical. distinct_nontrivial = distinct (module, pair).`,
+    rule: `Corpus: ${tier === 'quick' ? 400 : 3000} generated modules, each 1-4 snippets drawn from ${SNIPPETS.length} JS and ${TS_SNIPPETS.length} TS snippets tagged with the features they use (on/nativeOn, spread, repeated attribute, sole identifier/call child, pattern-matching tag, defineComponent call; also attribute names that merely start with on/nativeOn and tags that only a case-insensitive or leaked inline flag would match), plus fixture inputs. (A) ${SPELLINGS.length - 1} JSON spellings of configurations (absent, {}, explicit defaults, unknown and mis-cased keys, whitespace/order, each key alone at and away from its default, everything non-default) are deserialised exactly as the plugin entry does; the parsed options and the byte output must equal those of the explicit expected option object on every module; the no-configuration case additionally runs the real plugin entry glue. ${INVALID.length} invalid pattern configurations must be rejected at read time. (B) for every module and every option whose feature the module does not use, outputs with that option off/on under ${tier === 'quick' ? 2 : 8} random settings of the other options must be byte-identical (the pattern list that counts as on is one pattern, or two where the first carries an inline flag). distinct_nontrivial = distinct (module, pair).`,
     assumptions: ['the Some(json) arm of plugin/src/lib.rs cannot execute off-wasm; its callee serde_json::from_str::<Options> is executed on the same text', 'an on/nativeOn attribute under transformOn counts as a use of mergeProps (it is merged like a spread)'],
   };
 }
